@@ -87,6 +87,9 @@ def oracle(ep, outs, want=("C07", "C08")):
     if ep[0].startswith("cb race"):
         return [] if outs and outs[0] == "within-budget" else \
             ["half-open budget exceeded by callers arriving together: %s -> %s" % (ep[0], outs[0] if outs else "?")]
+    if ep[0].startswith("cb notifyrace"):
+        return [] if outs and outs[0] == "live" else \
+            ["C08: state-change notification blocks request processing: %s -> %s" % (ep[0], outs[0] if outs else "?")]
     cfg = tuple(int(x) for x in ep[0].split()[2:7])
     ft, st_thr, mx, iv, to = defaults(cfg)
     fails = []
@@ -167,6 +170,36 @@ def oracle(ep, outs, want=("C07", "C08")):
     return fails
 
 
+def trip_episodes():
+    """the breaker as wired into the real front end (cmd/helios handler, real sockets): three
+    backend failures of any kind in a row — also one announced by an interim 1xx response — and the
+    next request must be refused without reaching the backend"""
+    eps = []
+    for fault in ("s500", "i503", "refuse", "garbage"):
+        for strat in ("round_robin", "least_connections"):
+            eps.append(["ft new %s 1 0 0 0" % strat] + ["ft req " + fault] * 3 + ["ft req ok", "ft close"])
+    return eps
+
+
+def trip_oracle(ep, outs):
+    lines = C.op_lines(ep)
+    hits = []
+    for l, o in zip(lines, outs):
+        if l.startswith("ft req"):
+            d = dict(t.split("=", 1) for t in o.split(" || ", 1)[-1].split() if "=" in t)
+            hits.append((l, d.get("class"), int(d.get("hits", "-1")), int(d.get("at", "0")), int(d.get("ms", "0"))))
+    if len(hits) < 4 or len(set(h[0] for h in hits[:3])) != 1 or not hits[3][0].endswith(" ok"):
+        return []           # (a shrunk episode)
+    fails = []
+    (l3, c3, h3, at3, _), (l4, c4, h4, at4, ms4) = hits[2], hits[3]
+    if at4 - ms4 - at3 > 700:
+        return []           # a loaded machine: the 1 s open period may have run out in between
+    if h4 != h3 or c4 != "503":
+        fails.append("C07 trips (as wired): after 3 consecutive backend failures (%s) the next request was answered %s and %s the backend" % (
+            hits[0][0].split()[2], c4, "reached" if h4 != h3 else "did not reach"))
+    return fails
+
+
 def build(ctx):
     overlay = C.make_overlay(ctx, clock_pkgs=["internal/circuitbreaker"], harness_pkgs=["internal/circuitbreaker"])
     return C.go_test_build(ctx, "internal/circuitbreaker", overlay)
@@ -181,6 +214,9 @@ def run_checks(ctx, want):
         # callers arriving together at the open -> half-open transition (real goroutines)
         rounds = 3000 if ctx.thorough() else 300
         episodes += [["cb race %d %d %d" % (c, m, rounds)] for c, m in ((2, 1), (6, 1), (12, 1), (8, 2))]
+    if "C08" in want:
+        # state changes from concurrent requests while an observer that reads the breaker is running
+        episodes += [["cb notifyrace %d %d" % (c, 1500 if ctx.thorough() else 150)] for c in (2, 4, 8)]
     bad = d.check(episodes, oracle=lambda e, o: oracle(e, o, want), label="cb")
     # the breaker as the balancer wires it (setupCircuitBreaker: thresholds, interval, timeout,
     # max_requests defaulting) under the virtual clock: correspondence with the LB model
@@ -192,6 +228,12 @@ def run_checks(ctx, want):
     wired = [lbgen.mixed_episode(ctx.rng, n=40, cb=True, passive=False) for _ in range(400 if ctx.thorough() else 80)]
     dl.check(wired, oracle=None, label="cb-wiring")
     ctx.cov["wiring_episodes"] = len(wired)
+    if "C07" in want:
+        from . import c03
+        dt = C.Differential(ctx, c03.build(ctx), timeout=600, project=c03.project)
+        trips = trip_episodes()
+        dt.check(trips, oracle=trip_oracle, label="cb-front")
+        ctx.cov["front_end_trip_episodes"] = len(trips)
     trans = {}
     nontriv = set()
     tags = {}
